@@ -88,6 +88,14 @@ for _m in _overlay.REG:
 # C20 ("no panic, profile independence") also owns the overflow obligations of the limb arithmetic: every checked-arithmetic assert of the
 # MIR of Poly1305::block and the fe64 functions is discharged by mirsym for all in-class inputs, so dev and release builds compute the same values
 if "C20" in PROPS:
+    # refusal / counter-boundary harnesses that live under another property's prefix but decide a C20 clause as well
+    # (cipher block counters crossing their word boundary; KDF length limits; inadmissible parameters; length mismatches)
+    for _p in ["c03_ref_counters", "c03_sse2_counters", "c03_salsa_counter_addback_output", "c04_chacha_process_len_mismatch_panics",
+               "c04_xchacha_process_len_mismatch_panics", "c04_chachaorig_process_len_mismatch_panics", "c04_salsa_process_len_mismatch_panics",
+               "c04_xsalsa_process_len_mismatch_panics", "c10_hkdf_expand_limit_", "c10_pbkdf2_c0_refused", "c10_scrypt_params_inadmissible_refused",
+               "c18_slice8_len_mismatch_panics"]:
+        if _p not in PROPS["C20"]["prefixes"]:
+            PROPS["C20"]["prefixes"] = list(PROPS["C20"]["prefixes"]) + [_p]
     import mirsym_extra as _mx
     PROPS["C20"].setdefault("extra", []).append(_mx.make_extra("C20"))
 
